@@ -768,14 +768,25 @@ class Interp:
         return False
 
     def st_With(self, s, fr):
-        # only context managers the contract models as no-ops (e.g. warnings.catch_warnings())
+        # only context managers the contract models: ('noop_ctx', value) - nothing happens on exit (e.g. warnings.catch_warnings()) - and
+        # ('ctx', value, on_exit) - on_exit() runs when the block is left, normally or by an exception of the program (a file being closed)
+        exits = []
         for it in s.items:
             v = self.eval(it.context_expr, fr)
-            if not (isinstance(v, tuple) and v and v[0] == 'noop_ctx'):
+            if not (isinstance(v, tuple) and v and v[0] in ('noop_ctx', 'ctx')):
                 raise Unsupported('with statement over %s at %s:%d' % (ast.unparse(it.context_expr)[:40], fr.fi.file, s.lineno))
+            if v[0] == 'ctx':
+                exits.append(v[2])
             if it.optional_vars is not None:
                 self.assign(it.optional_vars, v[1] if len(v) > 1 else None, fr)
-        self.exec_block(s.body, fr)
+        try:
+            self.exec_block(s.body, fr)
+        except (PyRaise, _Return, _Break, _Continue):
+            for f in reversed(exits):
+                f()
+            raise
+        for f in reversed(exits):
+            f()
 
     def st_Assert(self, s, fr):
         c = self.truthy(self.eval(s.test, fr))
@@ -804,7 +815,7 @@ class Interp:
         for name, f in lspec.inv(self, fr.env, None, None).items():
             ctx.check('%s.inv.%s.entry' % (tag, name), f, lspec.kind, where='%s:%d' % (fr.fi.file, s.lineno))
         d = ctx.choose(2, tag)
-        self.havoc(fr, lspec, names, tag)
+        self.havoc(fr, lspec, names, tag, mutated={p.split('.')[0] for p in paths if '.' not in p})
         for f in lspec.inv(self, fr.env, None, None).values():
             ctx.assume(f)
         c = self.truthy(self.eval(s.test, fr))
@@ -853,6 +864,13 @@ class Interp:
         self.exec_block(s.orelse, fr)
 
     # ------------------------------------------------------------------ loops
+    def chars_of(self, text):
+        """iterating a symbolic string: the sequence of its characters (one-character strings), as many as its length"""
+        chars = UF('str.chars', StrS, z3.SeqSort(StrS))(text)
+        if not self.ctx.pure:
+            self.ctx.assume(z3.Length(chars) == z3.Length(text))
+        return SymSeq([chars])
+
     def st_For(self, s, fr):
         it = self.eval(s.iter, fr)
         items = self.concrete_items(it)
@@ -868,11 +886,7 @@ class Interp:
             self.exec_block(s.orelse, fr)
             return
         if is_sym(it) and it.sort() == StrS:
-            # iterating a symbolic string: the sequence of its characters (one-character strings), as many as its length
-            chars = UF('str.chars', StrS, z3.SeqSort(StrS))(it)
-            if not self.ctx.pure:
-                self.ctx.assume(z3.Length(chars) == z3.Length(it))
-            it = SymSeq([chars])
+            it = self.chars_of(it)
         ordinal = fr.loop_ordinals[id(s)]
         lspec = self.spec.loops.get((fr.fi.qualname, ordinal))
         if lspec is None:
@@ -954,6 +968,15 @@ class Interp:
             # execution cannot go on without a contract for that state
             self.ctx.check('%s.frame.writes_only_declared_state[%s]' % (tag, p), False, 'auxiliary')
             raise Unsupported('%s: loop mutates %s which the loop contract does not declare' % (tag, p))
+        if isinstance(it, Obj) and not isinstance(it, (SymSeq, SymSet)) and (self.is_pyany(it) or it.cls in ('pyvalue', None)):
+            # a Python value of unknown type: iterating it is a TypeError unless it is iterable - which a list / tuple / set / dict / str is (so under an
+            # isinstance test of the code the error path is infeasible) - and otherwise yields elements about which nothing is known
+            iterable = UF('py.iterable', ObjS, BoolS)(it.expr)
+            for nm in ('list', 'tuple', 'set', 'frozenset', 'dict', 'str'):
+                ctx.assume(z3.Implies(UF('isinstance_' + nm, ObjS, BoolS)(it.expr), iterable))
+            if not ctx.branch(iterable, 'iterable@%d' % getattr(s, 'lineno', 0), prune=True):
+                self.raise_py('TypeError', s)
+            it = Untracked()
         if isinstance(it, Untracked):
             # a collection the contract does not track: some number of elements about which nothing is known
             it = _OpaqueSeq(ctx.fresh('n_untracked_%s' % tag, IntS))
@@ -994,7 +1017,7 @@ class Interp:
         for name, f in inv_at(start()).items():
             ctx.check('%s.inv.%s.entry' % (tag, name), f, lspec.kind, where='%s:%d' % (fr.fi.file, s.lineno))
         d = ctx.choose(2, tag)
-        self.havoc(fr, lspec, names, tag)
+        self.havoc(fr, lspec, names, tag, mutated={p.split('.')[0] for p in paths if '.' not in p})
         if is_map:
             it = self.eval(iter_node, fr)
             n = it.m.dom
@@ -1125,11 +1148,18 @@ class Interp:
                         return False
         return ok
 
-    def havoc(self, fr, lspec, names, tag):
+    def havoc(self, fr, lspec, names, tag, mutated=()):
         for path, factory in lspec.havoc.items():
             v = factory(self)
             parts = path.split('.')
             if len(parts) == 1:
+                old = fr.env.get(parts[0]) if parts[0] in fr.env else None
+                if parts[0] in mutated and type(old) is type(v) and isinstance(old, (SymMap, SymSeq, SymSet)):
+                    # the loop writes INTO the object this local names (x[k] = ..., x.pop(..), x.append(..)): whatever else names the same object - a
+                    # parameter it was bound from without a copy, a field - sees those writes, so the object itself takes the arbitrary state
+                    old.__dict__.clear()
+                    old.__dict__.update(v.__dict__)
+                    v = old
                 fr.env[parts[0]] = v
             else:
                 o = fr.env.get(parts[0])
@@ -1750,6 +1780,15 @@ class Interp:
                 self.raise_py('IndexError', node)
             idx = z3.If(zk >= 0, zk, n + zk)
             return o.elem(z3.simplify(idx))
+        if (is_sym(o) and o.sort() == StrS or isinstance(o, str)) and (isinstance(k, int) or (is_sym(k) and k.sort() == IntS)):
+            # s[i] of a (symbolic) string: the one-character string at that position, counted from the end for a negative index; IndexError outside
+            z = to_z3(o)
+            n = z3.Length(z)
+            zk = to_z3(k, IntS)
+            inb = z3.And(zk >= -n, zk < n)
+            if not self.ctx.branch(inb, 'index@%d' % node.lineno, prune=True):
+                self.raise_py('IndexError', node)
+            return z3.SubString(z, z3.If(zk >= 0, zk, n + zk), 1)
         if isinstance(o, Untracked) or isinstance(k, Untracked):
             return Untracked()
         if self.is_pydict(o):
@@ -2354,6 +2393,9 @@ class Interp:
             return UF('str.count', StrS, StrS, IntS)(z, to_z3(args[0], StrS))
         if attr == 'find' and len(args) == 1:
             return z3.IndexOf(z, to_z3(args[0], StrS), 0)
+        h = self.spec.models.get('method:str.' + attr)       # a contract-supplied model of a string method the engine has no reading of (isprintable, encode ...)
+        if h is not None:
+            return h.fn(self, [z] + list(args), {}, node)
         raise Unsupported('str method .%s' % attr)
 
 
@@ -2577,6 +2619,8 @@ def _b_enumerate(I, args, kwargs, node):
     if items is None:
         if isinstance(v, SymSeq):
             return Enumerated(v, start)
+        if is_sym(v) and v.sort() == StrS:
+            return Enumerated(I.chars_of(v), start)
         raise Unsupported('enumerate over symbolic collection')
     return [(start + i, x) for i, x in enumerate(items)]
 
